@@ -47,9 +47,10 @@ NAMES = ["a", "b", "ab", "ba", "x", "y", "xy", "i", "n", "nin", "in_", "is_", "a
          "λ", "é1", "__x", "T", "def_", "classy", "with_", "async_", "awaits", "typed", "matcher", "case_"]
 ATTRS = ["a", "b", "ab", "x", "real", "imag", "in_", "for_", "if_", "attr", "items", "format", "é", "fora", "T"]
 MODS = ["os", "sys", "a.b", "a.b.c", "pkg.in_", "x"]
-STRS = ["", "s", "a b", "it's", 'say "hi"', "#notcomment", "(", "x)", "[", "}", "{", "{}", "for x in y:", "line\nbreak",
+HASH_STRS = ["#notcomment", "a # b", "#"]   # rare on purpose: a '#' inside a literal derails rope's token search
+STRS = ["", "s", "a b", "it's", 'say "hi"', "(", "x)", "[", "}", "{", "{}", "for x in y:", "line\nbreak",
         "tab\there", "back\\slash", "éè", "名前", "'''", '"""', "a,b", "1_000", "if", "\\", "%s", "*", "**"]
-BYTES = [b"", b"b", b"\x00\xff", b"it's", b'"', b"#", b"(", b"\\"]
+BYTES = [b"", b"b", b"\x00\xff", b"it's", b'"', b"(", b"\\"]
 INTS = [0, 1, 2, 7, 10, 255, 1000, 65535, 10 ** 6, 2 ** 40, 10 ** 30]
 FLOATS = [0.0, 0.5, 1.0, 1.5, 3.14, 1e10, 1e-07, 2.5e+20, 1e100, 123456.789]
 IMAGS = [1j, 2.5j, 0j, 1e3j]
@@ -117,6 +118,8 @@ class Gen:
         if k == "complex":
             return ast.Constant(value=r.choice(IMAGS))
         if k == "str":
+            if r.random() < 0.03:
+                return ast.Constant(value=r.choice(HASH_STRS))
             return ast.Constant(value=r.choice(STRS), kind="u" if r.random() < 0.05 else None)
         if k == "bytes":
             return ast.Constant(value=r.choice(BYTES))
@@ -259,7 +262,7 @@ class Gen:
         vals = []
         for _ in range(r.randint(1, 4)):
             if r.random() < 0.4:
-                vals.append(ast.Constant(value=r.choice(["s", "a b", "{", "}", "{}", "it's", 'q"', "x=", "a{b}c", "#", "("])))
+                vals.append(ast.Constant(value=r.choice(["s", "a b", "{", "}", "{}", "it's", 'q"', "x=", "a{b}c", "(", "# " if r.random() < 0.05 else "-"])))
             else:
                 vals.append(self.formatted(sc, d))
         if not any(isinstance(v, ast.FormattedValue) for v in vals):
@@ -632,8 +635,8 @@ class Gen:
 
 
 def random_module(rnd, n_stmts=None):
-    g = Gen(rnd)
-    n = n_stmts or rnd.randint(6, 14)
+    g = Gen(rnd, max_expr_depth=rnd.choice([1, 2, 2, 2, 3]), max_stmt_depth=rnd.choice([1, 2, 3]))
+    n = n_stmts or rnd.randint(4, 10)
     sc = _Scope()
     body = [g.stmt(sc, 0) for _ in range(n)]
     return ast.Module(body=body, type_ignores=[])
